@@ -89,12 +89,6 @@ def setOpt (l : List (Option Bytes)) (i : Nat) (v : Option Bytes) : List (Option
 
 def orElse' (new old : Option Bytes) : Option Bytes := match new with | some b => some b | none => old
 
-/-- the harness's `gs`/`gc`/`gr` construction ops (`esl_msa_AddGS`, `esl_msa_AppendGC`, `esl_msa_AppendGR`) -/
-def appendGC (tbl : List (Bytes × Bytes)) (tag v : Bytes) : List (Bytes × Bytes) :=
-  match tbl.findIdx? (fun t => t.1 == tag) with
-  | some t => tbl.modify t (fun (tg, old) => (tg, old ++ v))
-  | none => tbl ++ [(tag, v)]
-
 def minspanOf (tbits : Nat) (alen : Nat) : Int :=
   ((Float32.ofBits (UInt32.ofNat tbits) * Float32.ofNat alen).toFloat.ceil.toInt64).toInt
 
